@@ -4,7 +4,7 @@
 From Coq Require Import NArith Bool List Lia.
 From stdpp Require Import base list option.
 From RecordUpdate Require Import RecordSet.
-From RC Require Import Hdr Machine RunInd Flags3 Clean CleanThm.
+From RC Require Import Hdr Machine RunInd Flags3 Clean CleanFrame CleanStep CleanStep2 CleanThm.
 Import ListNotations RecordSetNotations.
 
 Lemma omap_nil_Forall (k : list event) :
@@ -33,4 +33,93 @@ Proof.
   intros Ecr Hno. apply quiet_ext_of_suffix.
   - apply run_log_mono.
   - exact (proj1 (C10_clean_after_noop K P fuel self c m cr Ecr Hno)).
+Qed.
+
+(** ** No action is ever lost: in every run that did not run out of fuel, every aid allocated
+    so far is stored in exactly one slot and has not run, or has run exactly once and is stored
+    nowhere. *)
+Definition stored (m : machine) (a : nat) : Prop := exists o k s, slot_at m o k = Some (MAction a s).
+Definition complete (m : machine) : Prop :=
+  forall a, a < next_aid m -> stored m a \/ a ∈ executed_aids (log m).
+Definition fuel_free (m : machine) : Prop := forall o, EBad Fuel o ∉ log m.
+
+Lemma stored_cv m a : stored_in (cv_h (cv m)) a <-> stored m a.
+Proof.
+  unfold stored_in, stored. split; intros (o & k & s & H); exists o, k, s.
+  - rewrite <- slotv_cv. exact H.
+  - rewrite slotv_cv. exact H.
+Qed.
+
+Lemma complete_Rel m m' : complete m -> Rel (cv m) (cv m') -> complete m'.
+Proof.
+  intros HC ((_ & (_ & Hm & _) & _) & HK1 & HK3) a Ha. change (next_aid m') with (cv_n (cv m')) in Ha.
+  destruct (decide (a < next_aid m)) as [Hlt|Hge].
+  - destruct (HC a Hlt) as [(o & k & s & Hs)|Hx].
+    + rewrite <- slotv_cv in Hs. destruct (HK1 o k a s Hs) as [Hs'|Hx']; [|right; exact Hx'].
+      left. exists o, k, s. rewrite <- slotv_cv. exact Hs'.
+    + right. exact (Hm a Hx).
+  - destruct (HK3 a ltac:(cbn; lia) Ha) as [Hs|Hx]; [left; apply stored_cv, Hs|right; exact Hx].
+Qed.
+
+Lemma complete_cv m m' : cv m' = cv m -> complete m -> complete m'.
+Proof.
+  intros E HC a Ha. change (next_aid m') with (cv_n (cv m')) in Ha. rewrite E in Ha.
+  destruct (HC a Ha) as [Hs|Hx].
+  - left. apply stored_cv. rewrite E. apply stored_cv, Hs.
+  - right. change (a ∈ cv_x (cv m')). rewrite E. exact Hx.
+Qed.
+
+Lemma exec_top_fuel_free K P fuel c m : fuel_free (exec_top K P fuel c m) -> fuel_free m.
+Proof.
+  unfold exec_top. pose proof (run_log_mono K P fuel (KCmd None c) m) as [l Hl].
+  destruct (run K P fuel (KCmd None c) m) as [m' r]. cbn [fst] in Hl.
+  intros Hff o Ho. apply (Hff o). destruct r; cbn; rewrite ?Hl;
+    repeat first [apply elem_of_app; right | apply elem_of_cons; right]; exact Ho.
+Qed.
+
+Lemma exec_top_complete K P fuel c m :
+  CI m -> complete m -> fuel_free (exec_top K P fuel c m) ->
+  complete (exec_top K P fuel c m) /\ fuel_free m.
+Proof.
+  intros HI HC Hff. unfold exec_top in *.
+  pose proof (run_clean K P fuel (KCmd None c) m (conj HI I)) as [HR _].
+  pose proof (run_log_mono K P fuel (KCmd None c) m) as [l Hl].
+  destruct (run K P fuel (KCmd None c) m) as [m' r]. cbn [fst snd] in *.
+  assert (Hff' : forall m2, (forall o, EBad Fuel o ∉ log m2) -> (exists l2, log m2 = l2 ++ log m') -> fuel_free m).
+  { intros m2 H2 (l2 & E2) o Ho. apply (H2 o). rewrite E2, Hl. apply elem_of_app. right.
+    apply elem_of_app. right. exact Ho. }
+  destruct r; unfold res in HR; cbn [fst snd] in HR.
+  - split; [eapply complete_Rel; eassumption|]. apply (Hff' m' Hff). exists []. reflexivity.
+  - split; [eapply complete_cv; [|eapply complete_Rel; eassumption]; apply cv_emit; reflexivity|].
+    apply (Hff' _ Hff). exists [ERes RPanicked]. reflexivity.
+  - split; [eapply complete_cv; [|eapply complete_Rel; eassumption]; apply cv_emit_bad|].
+    apply (Hff' _ Hff). exists [EBad Abort 0]. reflexivity.
+  - exfalso. apply (Hff 0). cbn. left.
+Qed.
+
+Theorem prog_complete K P fuel cmds :
+  let m := fold_left (fun m c => exec_top K P fuel c m) cmds (init K) in
+  fuel_free m -> complete m.
+Proof.
+  cbv zeta. induction cmds as [|c cmds IH] using rev_ind; intros Hff.
+  - intros a Ha. cbn in Ha. lia.
+  - rewrite fold_left_app in *. cbn [fold_left] in *.
+    pose proof (exec_top_fuel_free K P fuel c _ Hff) as Hff0.
+    apply (exec_top_complete K P fuel c _ (prog_CI K P fuel cmds) (IH Hff0) Hff).
+Qed.
+
+(** Theorem: at most once, and never lost *)
+Theorem C10_never_lost K P fuel cmds :
+  let m := fold_left (fun m c => exec_top K P fuel c m) cmds (init K) in
+  fuel_free m ->
+  forall a, a < next_aid m ->
+    (stored m a /\ a ∉ executed_aids (log m)) \/
+    (count_occ Nat.eq_dec (executed_aids (log m)) a = 1 /\ ~ stored m a).
+Proof.
+  intros m Hff a Ha. pose proof (prog_CI K P fuel cmds) as HI. fold m in HI.
+  destruct (prog_complete K P fuel cmds Hff a Ha) as [Hs|Hx].
+  - left. split; [exact Hs|]. destruct Hs as (o & k & s & Hs).
+    exact (cis_nx _ (CI_spell _ HI) _ _ _ _ Hs).
+  - right. split; [apply count_occ_NoDup_1; [exact (ci_xnd _ HI)|exact Hx]|].
+    intros (o & k & s & Hs). exact (cis_nx _ (CI_spell _ HI) _ _ _ _ Hs Hx).
 Qed.
